@@ -221,26 +221,33 @@ func (s *Sched) Release(d time.Duration) error {
 			gg.resume <- struct{}{}
 		}
 	}
+	// Round-based: a goroutine that raced into a gate while holding a lock of
+	// the code under test must be resumed before the goroutines blocked on that
+	// lock can finish, whatever the order of this loop.
 	deadline := time.Now().Add(d)
-	for _, gg := range all {
-		if gg.finished || gg.events == nil {
-			continue
-		}
-		for !gg.finished {
-			left := time.Until(deadline)
-			if left <= 0 {
-				return fmt.Errorf("sched: goroutine %s did not finish", gg.name)
+	for {
+		pending := 0
+		for _, gg := range all {
+			if gg.finished {
+				continue
 			}
-			st, _ := s.wait(gg, left)
+			pending++
+			st, _ := s.wait(gg, 0)
 			if st == AtGate {
-				// Raced with the release flag: let it go on.
 				gg.parked = false
 				gg.resume <- struct{}{}
 			}
-			if st == Blocked {
-				return fmt.Errorf("sched: goroutine %s did not finish", gg.name)
+		}
+		if pending == 0 {
+			return nil
+		}
+		if time.Now().After(deadline) {
+			for _, gg := range all {
+				if !gg.finished {
+					return fmt.Errorf("sched: goroutine %s did not finish", gg.name)
+				}
 			}
 		}
+		time.Sleep(200 * time.Microsecond)
 	}
-	return nil
 }
